@@ -31,6 +31,8 @@ func main() {
 		deviation(os.Args[2:])
 	case "getdata":
 		getdata(os.Args[2:])
+	case "sync":
+		syncEngine(os.Args[2:])
 	default:
 		die(fmt.Errorf("unknown engine %q", os.Args[1]))
 	}
@@ -116,6 +118,52 @@ func getdata(args []string) {
 	bw.Flush()
 	of.Close()
 	fmt.Printf("requests=%d\n", r.N)
+}
+
+func syncEngine(args []string) {
+	fs := flag.NewFlagSet("sync", flag.ExitOnError)
+	in := fs.String("in", "", "scripts file (ndjson)")
+	out := fs.String("out", "", "trace file (ndjson)")
+	fs.Parse(args)
+	// storeSyncMsg prints every update to stdout
+	realStdout := os.Stdout
+	if devnull, err := os.OpenFile(os.DevNull, os.O_WRONLY, 0); err == nil {
+		os.Stdout = devnull
+	}
+	w, err := env.NewWorld("g0", "")
+	if err != nil {
+		die(err)
+	}
+	defer w.Close()
+	f, err := os.Open(*in)
+	if err != nil {
+		die(err)
+	}
+	defer f.Close()
+	of, err := os.Create(*out)
+	if err != nil {
+		die(err)
+	}
+	bw := bufio.NewWriterSize(of, 1<<20)
+	r := &drive.SyncRunner{W: w, Out: bw}
+	sc := bufio.NewScanner(f)
+	sc.Buffer(make([]byte, 1<<20), 1<<26)
+	for sc.Scan() {
+		if len(sc.Bytes()) == 0 {
+			continue
+		}
+		var st drive.SyncScript
+		if err := json.Unmarshal(sc.Bytes(), &st); err != nil {
+			die(err)
+		}
+		if err := r.Run(&st); err != nil {
+			bw.Flush()
+			die(err)
+		}
+	}
+	bw.Flush()
+	of.Close()
+	fmt.Fprintf(realStdout, "scripts=%d\n", r.N)
 }
 
 func txn(args []string) {
